@@ -262,6 +262,36 @@ def run_roundtrip(ctx: Ctx, quick: bool = True) -> None:
                     return True, ""
                 _guard(ctx, "T18.singleton", f"{ext}:size={size}:C={C}", fW, f"format={ext} size={size} channels={C}", ths)
 
+    # scalar images given without a channel axis (data.ndim == grid.ndim): accepted by the native MetaImage and NIfTI writers
+    ctx.rule("T18.channel-less", "write_image(data, grid, path) with data.ndim == grid.ndim (no channel axis; the form the native .mha and "
+                                 ".nii writers document) stores a one-channel image: reading it back gives the same voxels with a leading "
+                                 "channel axis of size 1 and the same grid; the reference reader sees one component per pixel")
+    for ext in (".mha", ".nii.gz"):
+        for D in (2, 3):
+            if ext.startswith(".nii") and D == 2:
+                continue  # recorded finding (2-D NIfTI)
+
+            def thc(ext=ext, D=D):
+                env = IOEnv(ctx)
+                it = env.it
+                g, geo = env.grid(D)
+                data = env.data(D, 1, "float32")
+                flat = data[0].clone()
+                path = f"/vfs/scalar{ext}"
+                it.call(fW, flat, g, path, compress=True)
+                d2, g2 = it.call(fR, path)
+                ok, msg = same_data(d2, data)
+                if not ok:
+                    return False, msg
+                ok, msg = same_grid(env, g2, geo)
+                if not ok:
+                    return False, "grid " + msg
+                ok, msg = sitk_expect(env, IO.sitk_read(path), data, geo, "reference reader")
+                if not ok:
+                    return False, msg
+                return True, ""
+            _guard(ctx, "T18.channel-less", f"{ext}:D={D}", fW, f"format={ext} D={D} data without channel axis", thc)
+
 
 def run_entry_points(ctx: Ctx) -> None:
     prog = ctx.prog
@@ -386,6 +416,15 @@ def run_entry_points(ctx: Ctx) -> None:
                         ok, msg = sitk_expect(env, sim2, STensor(list(want2.flat()), list(range(want2.numel())), list(want2.shape), IO.dt("float32")), geo, f"FlowField.sitk(axes={other})")
                         if not ok:
                             return False, msg
+                    # the URI entry points are the same operations: to_uri stores world-space vectors, from_uri restores the field
+                    p3 = f"/vfs/flow_uri{ext}"
+                    it.method(f, "to_uri", p3)
+                    raw3, _g3 = it.call(prog.func("deepali.utils.imageio", "read_image"), p3)
+                    if not teq(raw3, wdata):
+                        return False, f"FlowField(axes={axes}).to_uri() does not store world-space vectors (differs from write())"
+                    r3 = it.method(tae.ClassVal(FlowField), "from_uri", p3)
+                    if not isinstance(r3, STObj) or r3.cls.name != "FlowField" or not teq(it.method(r3, "axes", A).plain(), data):
+                        return False, "FlowField.from_uri(to_uri(f)) converted back to the original axes differs from f"
                     # SimpleITK route
                     sim = it.method(f, "sitk")
                     ok, msg = sitk_expect(env, sim, STensor(list(wdata.flat()), list(range(wdata.numel())), list(wdata.shape), IO.dt("float32")), geo, "FlowField.sitk()")
